@@ -273,3 +273,15 @@ impl ObjectWriter for FdtWriter {
         false
     }
 }
+
+#[cfg(feature = "verif-hooks")]
+impl FdtReceiver {
+    pub(crate) fn verif_state(&self) -> u8 {
+        match self.state() {
+            FDTState::Receiving => 0,
+            FDTState::Complete => 1,
+            FDTState::Error => 2,
+            FDTState::Expired => 3,
+        }
+    }
+}
